@@ -38,6 +38,8 @@ type VerifEdit struct {
 	SeqNum     uint64
 	Trivial    bool
 	Version    []VerifTable // the newly installed version
+	// Stor is the storage the session was opened on (identifies the DB a process-wide hook is called for).
+	Stor storage.Storage
 	// Read returns all entries of a table of the new version (valid only during the hook call).
 	Read func(VerifTable) ([]VerifEntry, error)
 }
@@ -67,6 +69,7 @@ func verifCommitted(s *session, r *sessionRecord, nv *version, trivial bool) {
 		return
 	}
 	e := VerifEdit{Trivial: trivial, Version: verifDumpLevels(nv.levels)}
+	e.Stor = s.stor.Storage
 	e.Read = func(t VerifTable) ([]VerifEntry, error) { return verifReadTable(s.tops, t) }
 	for _, t := range r.addedTables {
 		e.Added = append(e.Added, VerifTable{Level: t.level, Num: t.num, Size: t.size,
